@@ -101,6 +101,20 @@ def gen_world(rng):
     return {"lines": lines, "cfg": cfg, "policy": policy, "ignored": ign, "rel": rel}
 
 
+def vary_sections(rng, world):
+    """give InRelease and Release of a codename different (possibly disjoint) sets of checksum sections"""
+    for cn, files in world["rel"].items():
+        if len(files) == 2:
+            a, b = sorted(files)
+            algos = files[a]["algos"]
+            if len(algos) >= 2:
+                k = rng.randint(1, len(algos) - 1)
+                sh = list(algos)
+                rng.shuffle(sh)
+                files[a]["algos"] = sh[:k]
+                files[b]["algos"] = sh[k:] if rng.random() < 0.6 else sh[k - 1:]
+
+
 def mutate_inconsistent(rng, world):
     """make InRelease and Release of one codename disagree; returns description or None"""
     cn = rng.choice(sorted(world["rel"]))
